@@ -5,6 +5,7 @@ import (
 	"context"
 	"sync"
 	"sync/atomic"
+	"time"
 
 	"github.com/pkg/errors"
 
@@ -26,6 +27,11 @@ type Bus struct {
 	sent  []*wire.Envelope
 	taps  []func(*wire.Envelope)
 	after []func(*wire.Envelope)
+	// blockUnknown: Publish to an address nobody is subscribed under waits for
+	// the recipient (or the caller's context, or the shutdown of the bus), as a
+	// network bus that keeps dialling does; default is an immediate error
+	blockUnknown bool
+	down         chan struct{}
 
 	activity atomic.Uint64
 	pending  atomic.Int64
@@ -48,7 +54,7 @@ type Hold struct {
 
 // NewBus creates a bus; ser may be nil (envelopes are passed by reference).
 func NewBus(ser wire.EnvelopeSerializer) *Bus {
-	return &Bus{recvs: map[wire.AddrKey]wire.Consumer{}, links: map[string]*link{}, ser: ser}
+	return &Bus{recvs: map[wire.AddrKey]wire.Consumer{}, links: map[string]*link{}, ser: ser, down: make(chan struct{})}
 }
 
 var _ wire.Bus = (*Bus)(nil)
@@ -77,6 +83,25 @@ func (b *Bus) TapAfter(f func(*wire.Envelope)) {
 	b.after = append(b.after, f)
 }
 
+// BlockOnUnknownRecipient makes Publish wait for a recipient that is not
+// subscribed instead of failing at once.
+func (b *Bus) BlockOnUnknownRecipient() {
+	b.mu.Lock()
+	defer b.mu.Unlock()
+	b.blockUnknown = true
+}
+
+// Shutdown releases every publisher that waits for an unreachable recipient.
+func (b *Bus) Shutdown() {
+	b.mu.Lock()
+	defer b.mu.Unlock()
+	select {
+	case <-b.down:
+	default:
+		close(b.down)
+	}
+}
+
 // Sent returns all envelopes published so far.
 func (b *Bus) Sent() []*wire.Envelope {
 	b.mu.Lock()
@@ -103,7 +128,7 @@ func (b *Bus) SubscribeClient(c wire.Consumer, addr map[wallet.BackendID]wire.Ad
 
 // Publish sends an envelope.  It fails for an unknown recipient, as a network
 // bus that cannot reach the peer does.
-func (b *Bus) Publish(_ context.Context, e *wire.Envelope) error {
+func (b *Bus) Publish(ctx context.Context, e *wire.Envelope) error {
 	if b.ser != nil {
 		var buf bytes.Buffer
 		if err := b.ser.Encode(&buf, e); err != nil {
@@ -115,11 +140,24 @@ func (b *Bus) Publish(_ context.Context, e *wire.Envelope) error {
 		}
 		e = d
 	}
-	b.mu.Lock()
 	rk := wire.Keys(e.Recipient)
-	if _, ok := b.recvs[rk]; !ok {
+	for {
+		b.mu.Lock()
+		if _, ok := b.recvs[rk]; ok {
+			break
+		}
+		block := b.blockUnknown
 		b.mu.Unlock()
-		return errors.New("sim.Bus: unknown recipient")
+		if !block {
+			return errors.New("sim.Bus: unknown recipient")
+		}
+		select {
+		case <-ctx.Done():
+			return errors.Wrap(ctx.Err(), "sim.Bus: recipient unreachable")
+		case <-b.down:
+			return errors.New("sim.Bus: shut down")
+		case <-time.After(2 * time.Millisecond):
+		}
 	}
 	b.sent = append(b.sent, e)
 	taps := append([]func(*wire.Envelope){}, b.taps...)
